@@ -27,6 +27,7 @@ CONSTANTS Threads, MaxCalls, Hint
 \* ---- a small concrete universe (definitions, so that a configuration can substitute a larger one) -----
 Axes3 == {<<"0", "2", "4">>, <<"0", "1", "4">>, <<"0", "2", "2">>, <<"0", "NaN", "4">>, <<"0", "2">>}   \* valid (even, uneven), tie, NaN, too short
 Axes4 == Axes3 \cup {<<"0", "1", "4", "6">>}
+AxesSmall == {<<"0", "2", "4">>, <<"0", "2", "2">>, <<"0", "NaN", "4">>, <<"0", "2">>}     \* for the deepest configuration
 Axes == Axes3
 Datas1 == {<<"1", "5", "3">>}
 Datas3 == {<<"1", "5", "3">>, <<"1", "5", "1">>, <<"1", "5", "3", "1">>}          \* the last two have equal ends (periodic data)
